@@ -42,9 +42,9 @@ Definition args_from_input (argcount posonly kwonly : Z) (varnames : list str) (
       end
   end.
 
-(* truthiness of an Optional[str]: None and "" are falsy *)
+(* presence of an Optional[str] (`is not None`; the empty string is a name like any other) *)
 Definition str_truthy (o : option str) : bool :=
-  match o with Some (_ :: _) => true | _ => false end.
+  match o with Some _ => true | None => false end.
 Definition opt_list {A} (o : option A) : list A := match o with Some x => [x] | None => [] end.
 Definition truthy_list (o : option str) : list str := if str_truthy o then opt_list o else [].
 
